@@ -118,6 +118,10 @@ func commandPattern(n *Node) string {
 	for _, o := range n.Outs {
 		if o.Stream {
 			fmt.Fprintf(&b, " -o {os:%s}", o.Name)
+		} else if n.OutNotInCmd {
+			// (the pattern is built from {i:..|basename} / {p:..} only, so the same
+			// text names the file inside the task's working directory)
+			fmt.Fprintf(&b, " -o %s", o.Pattern)
 		} else {
 			fmt.Fprintf(&b, " -o {o:%s}", o.Name)
 		}
@@ -383,6 +387,17 @@ func Program(w *WF, rt *Runtime) {
 		sp.InitLogError()
 	}
 	wf := Build(w, rt)
+	if w.Twin {
+		var wg simrt.WaitGroup
+		wg.Add(1)
+		twin := Build(w, rt)
+		simrt.Go("harness:twin-workflow", func() {
+			defer wg.Done()
+			twin.Run()
+		})
+		wf.Run()
+		wg.Wait()
+	}
 	if w.Parallel {
 		var wg simrt.WaitGroup
 		wg.Add(1)
@@ -394,7 +409,7 @@ func Program(w *WF, rt *Runtime) {
 		wg.Wait()
 	}
 	switch {
-	case w.Parallel:
+	case w.Parallel, w.Twin:
 	case w.RunToNone && w.RunToMode == 1:
 		wf.RunToRegex("^no_such_process_[0-9]+$") // (a typo: selects nothing)
 	case w.RunToNone && w.RunToMode == 2:
